@@ -86,6 +86,21 @@ func appCases(args []string) {
 			id++
 			w.Emit(appCase{ID: id, Mode: "c11", In: tr.Ints(in), Hold: 0, Display: dr[0], Record: dr[1], Chunk: []int{0, 64, 1, 4096}[k%4], Seed: rng.Int63(), Cls: "c11-files"})
 		}
+		// inputs for the built programs (no MSM with a bad time: the display is compared byte for byte)
+		for k := 0; k < 3; k++ {
+			var in []byte
+			for j := 0; j < 4+3*k; j++ {
+				in = append(in, gen.Frame(rng, []int{1005, 1006, 1230, 1033, 4072}[(j+k)%5], []int{19, 21, 8, 30, 12}[(j+k)%5], 0)...)
+				if j%3 == 1 {
+					in = append(in, gen.Junk(rng, 9, 1)...)
+				}
+			}
+			if k == 2 {
+				in = append(in, tr.Frame(gen.RandomMSM(rng, 1077, 7, 0, 0, 0).Encode())...)
+			}
+			id++
+			w.Emit(appCase{ID: id, Mode: "c11x", In: tr.Ints(in), Cls: "binary"})
+		}
 		// one output fails (the display log's filestore is full) while standard output is slow; and a standard output whose
 		// consumer stalls for several seconds on its first write
 		{
